@@ -19,6 +19,14 @@ fn main() {
         }
         return;
     }
+    if args[0] == "c10text" {
+        // debugging aid: print the schema text a C10 null_ns replay file generates
+        let (_, choices) = vcore::runner::read_replay(std::path::Path::new(&args[1])).expect("replay file");
+        let mut c = vcore::choices::Choices::new(&choices);
+        let cfg = vcore::sgen::SgenCfg { node_budget: 20, null_ns_inside: true, same_simple_names: true, ..vcore::sgen::SgenCfg::decorated() };
+        println!("{}", vcore::spec::render_text(&vcore::sgen::gen_schema(&mut c, &cfg)));
+        return;
+    }
     if args[0] == "derived" {
         // debugging aid: print the derived schema of corpus types
         use apache_avro::AvroSchema;
